@@ -289,6 +289,15 @@ def _(vm, a, ci):
         seg = items[s.start:s.end]
         out = stable_sort(vm, seg, lambda p, q: conc(vm, vm.call_value(a[1], [Ref(Cell(p)), Ref(Cell(q))])).variant - 1)
         items[s.start:s.end] = out; return UNIT
+    if m in ('join', 'concat'):
+        from .std_str import S, str_concat
+        parts = [S(vm, x) for x in items[s.start:s.end]]
+        sep = S(vm, a[1]) if m == 'join' else None
+        cur = None
+        for i, pt in enumerate(parts):
+            if i and sep is not None: cur = str_concat(vm, cur, sep)
+            cur = pt if cur is None else str_concat(vm, cur, pt)
+        return cur if cur is not None else const_str(vm, '')
     if m == 'split_at':
         k = a[1]
         if k > n: raise PanicEdge('panic', 'split_at: mid > len')
